@@ -88,3 +88,47 @@ func ruleLockOrder(prop string) ruleFn {
 		r.Notes = append(r.Notes, "LOCK-ORDER: "+itoa(len(edges))+" ordered pairs of lock classes from "+itoa(e.fnAnalysed)+" analysed function specialisations")
 	}
 }
+
+// LOCK-REENTRY (C13, C12): no call made while a state lock is held takes that lock again, except under the privilege.
+func ruleLockReentry(prop string) ruleFn {
+	return func(w *World, r *Report) {
+		r.Rule("LOCK-REENTRY", "Go's mutexes are not re-entrant.  Wherever a function of a State implementation calls — directly, through a hook (a function value, VTA-resolved) or through the State interface — something that takes the state's own lock while that lock is held, the call is made under the context privilege (a grant such as withPrivilege dominates the call and no revoke lies between): that is the idiom that turns the inner slock into a no-op.  A hook that calls back into the state (state.Get) from a function that holds the lock without the privilege — LinearState.Load runs the add hook that way — blocks on its own goroutine's lock for ever, and every later request for the location with it", 1)
+		e := newLocksetEngine(w, nil)
+		e.solveAll()
+		var p interface{}
+		a := newLocAnchors(w)
+		type keyT struct {
+			fn   string
+			lock string
+		}
+		seen := map[keyT]bool{}
+		n := 0
+		_ = p
+		for _, se := range e.privSkipped {
+			k := keyT{fname(se.Fn), se.Lock}
+			if seen[k] {
+				continue
+			}
+			seen[k] = true
+			n++
+			r.ok("LOCK-REENTRY", "fn="+k.fn+" lock="+k.lock, w.PosOf(se.At), "the inner acquisition happens under the privilege: via "+strings.Join(se.Chain, " > "))
+		}
+		bad := map[keyT]bool{}
+		for _, se := range e.selfHeld {
+			owner, isState := stateOwnerOf(a, se.Fn)
+			if !isState || !strings.HasPrefix(se.Lock, owner+".") {
+				continue
+			}
+			k := keyT{fname(se.Fn), se.Lock}
+			if bad[k] {
+				continue
+			}
+			bad[k] = true
+			n++
+			r.violation("LOCK-REENTRY", "fn="+k.fn+" lock="+k.lock, w.PosOf(se.At), "called with "+se.Lock+" held and without the privilege, and the callee takes "+se.Lock+": a self-deadlock; via "+strings.Join(se.Chain, " > "))
+		}
+		if n == 0 {
+			r.exempt("LOCK-REENTRY", "none", "", "no state function calls something that takes its own lock: nothing to decide")
+		}
+	}
+}
